@@ -124,10 +124,13 @@ def run(sh):
             m = float('inf')
         else:
             m = -int(rng.integers(1, 4))
+        if isinstance(m, int) and m >= 0 and rng.random() < 0.3:
+            m = [np.uint8, np.uint16, np.uint64, np.int8, np.int64, np.float32][int(rng.integers(0, 6))](min(m, 100))      # the same number as a NumPy scalar
+            attach.count('C08:min_n_cycles_as_numpy_scalar')
         one(sh, arr, m, 'random', LAYOUTS[int(rng.integers(0, 4))])
         sh.note('random:m=%s' % ('neg' if m < 0 else 'inf' if m == float('inf') else type(m).__name__))
         sh.case_done(None, nontrivial(arr), key='r%d:%d' % (sh.shard, it))
-    sh.samples.append({'is_burst_len': n, 'min_n_cycles': m, 'space': 'random geometric runs'})
+    sh.samples.append({'is_burst_len': n, 'min_n_cycles': float(m), 'space': 'random geometric runs'})
     for k, v in attach.COUNTS.items():
         if k.startswith('C08:'):
             sh.classes[k[4:]] = v
